@@ -9,6 +9,7 @@ from symx.shim import Recorder
 from . import common as H
 from . import riemann_common as R
 from . import sedov_common as S
+from . import ehep_common as E
 from .common import K, Mode
 from .rh import rh_claims
 
@@ -323,6 +324,185 @@ def _bisect_front(s, mk, lo, hi):
     return 0.5 * (a + b)
 
 
+# ------------------------------------------------------------------ elastic-plastic piston
+
+class EPPistonWaves(Obligation):
+    def __init__(self, model):
+        self.model = model
+        self.m = H.mod('exactpack.solvers.ep_piston.ep_piston')
+        self.id = 'C02.eppiston.%s' % model
+        self.modules = [self.m]
+        import scipy.optimize as so
+        from symx import stubs
+        self.extra_shim = {'sci_opt': H.ModProxy(so, fsolve=stubs.fsolve_stub), 'ExactSolution': Recorder}
+        self.functions = [self.m.EPpiston.__init__, self.m.EPpiston.Plastic_Residual, self.m.EPpiston.Gruneisen]
+        self.bounds = 'G, Y, rho0, up, gamma, c0, s0 symbolic; elasticity model fixed per obligation; fsolve replaced by its contract'
+        self.skip_validation = True
+        self.timeout_s = 40
+
+    def build(self, mk):
+        kw = {n: mk(n) for n in ('gamma', 'c0', 's0', 'G', 'Y', 'rho0', 'up')}
+        s = self.m.EPpiston(model=self.model, **kw)
+        out = {k: getattr(s, k) for k in ('sdev_y', 'rho_y', 'e_y', 'p_y', 'wv_el', 'vel_y', 'wv_pl', 'p2', 'rho2', 'e2')}
+        out.update(_rho0=mk('rho0'), _up=mk('up'))
+        out['p_y_eos'] = s.Gruneisen(mk('rho0'), mk('gamma'), mk('c0'), mk('s0'), out['rho_y'], out['e_y'])
+        out['p2_eos'] = s.Gruneisen(mk('rho0'), mk('gamma'), mk('c0'), mk('s0'), out['rho2'], out['e2'])
+        return out
+
+    def domain(self, V):
+        return [T.gt(V(n), T.ZERO) for n in ('gamma', 'c0', 's0', 'G', 'Y', 'rho0', 'up')] + \
+               [T.lt(V('Y'), V('G'))]
+
+    def claims(self, cx):
+        rho0 = cx['_rho0']
+        # total stress P = p - s_dev replaces pressure
+        s0_ = (rho0, 0, 0 - 0, 0)
+        sy = (cx['rho_y'], cx['vel_y'], cx['p_y'] - cx['sdev_y'], cx['e_y'])
+        s2 = (cx['rho2'], cx['_up'], cx['p2'] - cx['sdev_y'], cx['e2'])
+        rh_claims(cx, 'elastic precursor', s0_, sy, cx['wv_el'])
+        rh_claims(cx, 'plastic wave', sy, s2, cx['wv_pl'])
+
+
+# ------------------------------------------------------------------ steady-detonation reaction zone
+
+class SDRZFluxes(Obligation):
+    def __init__(self):
+        self.m = H.mod('exactpack.solvers.sdrz.sdrz')
+        self.id = 'C02.sdrz'
+        self.modules = [self.m]
+        self.extra_shim = {'ExactSolution': Recorder}
+        self.functions = [self.m.SteadyDetonationReactionZone.__init__, self.m.SteadyDetonationReactionZone.run_tvec]
+        self.bounds = 'D, rho_0, gamma and one particle time t>0 symbolic (both t<=1 and t>1 paths)'
+
+    def build(self, mk):
+        s = self.m.SteadyDetonationReactionZone(D=mk('D'), rho_0=mk('rho_0'), gamma=mk('gamma'))
+        sol = s.run_tvec(H.arr([mk('t')]))
+        out = H.first(H.fields(sol))
+        out.update(_D=mk('D'), _rho0=mk('rho_0'))
+        return out
+
+    def domain(self, V):
+        return [T.gt(V('t'), T.ZERO), T.gt(V('gamma'), T.ONE)]
+
+    def claims(self, cx):
+        D, rho0 = cx['_D'], cx['_rho0']
+        rho, u, p = cx['density'], cx['velocity'], cx['pressure']
+        cx.eq('mass flux rho (D-u) = rho_0 D', rho * (D - u), rho0 * D)
+        cx.eq('momentum flux p + rho (D-u)^2 = rho_0 D^2', p + rho * (D - u) * (D - u), rho0 * D * D)
+
+
+# ------------------------------------------------------------------ Mader CJ state
+
+class MaderCJ(Obligation):
+    def __init__(self):
+        self.m = H.mod('exactpack.solvers.mader.rarefaction')
+        self.id = 'C02.mader.cj'
+        self.modules = [self.m]
+        from symx import stubs
+        self.extra_shim = {'abs': stubs.cut_here}
+        self.functions = [self.m.rare]
+        self.bounds = 'p_cj, d_cj, gamma, u_piston, time, x, dx symbolic; constants block of rare() (cut at the first abs())'
+        self.skip_validation = True
+
+    def build(self, mk):
+        from symx import stubs
+        args = (mk('time'), mk('xlab'), mk('dx'), mk('p_cj'), mk('d_cj'), mk('gam'), mk('u_piston'))
+        if Mode.symbolic(mk):
+            try:
+                self.m.rare(*args)
+                raise RuntimeError('rare() was not cut')
+            except stubs.Cut as c:
+                L = c.locals
+        else:
+            _, L = H.capture_locals(self.m.rare, lambda: self.m.rare(*args))
+        out = {k: L[k] for k in ('rho_0', 'rho_cj', 'c_cj', 'u_cj')}
+        out.update(_p=mk('p_cj'), _D=mk('d_cj'), _g=mk('gam'))
+        return out
+
+    def domain(self, V):
+        return [T.gt(V(n), T.ZERO) for n in ('time', 'dx', 'p_cj', 'd_cj')] + [T.gt(V('gam'), T.ONE)]
+
+    def claims(self, cx):
+        p, D, g = cx['_p'], cx['_D'], cx['_g']
+        r0, rcj, ccj, ucj = cx['rho_0'], cx['rho_cj'], cx['c_cj'], cx['u_cj']
+        cx.eq('CJ mass: rho_0 D = rho_cj (D-u_cj)', r0 * D, rcj * (D - ucj))
+        cx.eq('CJ momentum: p_cj = rho_0 D u_cj', p, r0 * D * ucj)
+        cx.eq('CJ sonic: D = u_cj + c_cj', D, ucj + ccj)
+        cx.eq('c_cj^2 = gamma p_cj/rho_cj', ccj * ccj * rcj, g * p)
+
+
+class EHEPFront(Obligation):
+    """detonation front x = D t: region I formulas evaluated at the front vs the unreacted state"""
+
+    def __init__(self):
+        self.m = H.mod(E.EM)
+        self.id = 'C02.ehep.front'
+        self.modules = [self.m]
+        self.extra_shim = E.shim_extra()
+        self.functions = [self.m.EscapeOfHEProducts.__init__, self.m.EscapeOfHEProducts._run, self.m.EscapeOfHEProducts.p_rho]
+        self.bounds = 'D, rho_0, up, xtilde, xmax, tmax, x, t symbolic (constructor-admitted); gamma = 3 as the problem requires'
+        self.max_paths = 80
+
+    def build(self, mk):
+        if Mode.symbolic(mk):
+            out, s = E.run(mk)
+        else:
+            t = mk('t')
+            out, s = E.run(mk, x=mk('D') * t * (1 - 1e-9), t=t)
+            ahead, _ = E.run(mk, x=mk('D') * t * (1 + 1e-9), t=t)
+            out['ahead_density'] = ahead['density']
+            out['ahead_pressure'] = ahead['pressure']
+            out['ahead_velocity'] = ahead['velocity']
+        out.pop('_corners')
+        out.update(_D=mk('D'), _rho0=mk('rho_0'))
+        return out
+
+    def domain(self, V):
+        return E.domain(V)
+
+    def claims(self, cx):
+        if cx.symbolic:
+            return
+        D, rho0 = cx['_D'], cx['_rho0']
+        self._cj(cx, D, rho0, cx['density'], cx['velocity'], cx['pressure'], cx['sound_speed'],
+                 cx['ahead_density'], cx['ahead_velocity'], cx['ahead_pressure'])
+
+    @staticmethod
+    def _cj(cx, D, rho0, rho, u, p, cs, rho_a, u_a, p_a):
+        cx.eq('front: ahead state is the unreacted explosive (rho_0, 0, 0)', rho_a, rho0)
+        cx.eq('front: ahead velocity 0', u_a, 0, scale=[1.0] if not cx.symbolic else None)
+        cx.eq('front: ahead pressure 0', p_a, 0, scale=[1.0] if not cx.symbolic else None)
+        cx.eq('front CJ mass', rho * (D - u), rho0 * D)
+        cx.eq('front CJ momentum', p + rho * (D - u) * (D - u), rho0 * D * D)
+        cx.eq('front CJ sonic', u + cs, D)
+
+    def cross(self, paths, vals):
+        from symx.framework import replay_claim
+        out = []
+        regI = [(c, o) for c, o in paths if o.get('_region') == 'I']
+        reg0 = [(c, o) for c, o in paths if o.get('_region') == '0H']
+        if not regI or not reg0:
+            raise RuntimeError('regions I / 0H not reached')
+        sub = {T.var('x'): T.mul(T.var('D'), T.var('t'))}
+        f = lambda o, k: SymReal(T.substitute(term_of(o[k]), sub))
+        oI, o0 = regI[0][1], reg0[0][1]
+
+        class _C(object):
+            symbolic = True
+
+            def __init__(s):
+                s.claims = []
+
+            def eq(s, label, a, b, **k):
+                s.claims.append((label, T.eq(term_of(a), term_of(b))))
+        c = _C()
+        self._cj(c, SymReal(T.var('D')), SymReal(T.var('rho_0')), f(oI, 'density'), f(oI, 'velocity'), f(oI, 'pressure'),
+                 f(oI, 'sound_speed'), f(o0, 'density'), f(o0, 'velocity'), f(o0, 'pressure'))
+        for label, ct in c.claims:
+            out.append((label, [], ct, (lambda env, label=label: replay_claim(self, env, label))))
+        return out
+
+
 def obligations(tier):
     obs = []
     pairs = R.GAMMA_PAIRS_QUICK if tier == 'quick' else R.GAMMA_PAIRS_FULL
@@ -337,4 +517,9 @@ def obligations(tier):
     for name in ('Cog19', 'Cog20', 'Cog21'):
         for g in H.COG[name]['geoms']:
             obs.append(CogShock(name, g))
+    for model in ('hypo', 'hyperIfin', 'hyperFin'):
+        obs.append(EPPistonWaves(model))
+    obs.append(SDRZFluxes())
+    obs.append(MaderCJ())
+    obs.append(EHEPFront())
     return obs
